@@ -256,6 +256,7 @@ class Contracts:
         self.ghostmaps = {}
         self.ghostprocs = {}
         self.threadlocal_fields = set()
+        self.chandecls = []
         self.pures = {}       # name -> (params [(n,t)], rettype, ast, text)
         self.lockwords = []
         self.couples = []
@@ -300,6 +301,8 @@ class Contracts:
             return
         if kw in ('lockword', 'onceword', 'monotone', 'nonzero'):
             self.lockwords.append((kw, ' '.join([rest] + [l.strip() for l in lines[1:]]), src)); return
+        if kw == 'chan':
+            self.chandecls.append((' '.join([rest] + [l.strip() for l in lines[1:]]), src)); return
         if kw == 'couple':
             self.couples.append((' '.join([rest] + [l.strip() for l in lines[1:]]), src)); return
         if kw in ('func', 'extern', 'functype', 'iface'):
